@@ -125,3 +125,19 @@ def loops(fv):
                 h[0].update(body)
                 h[1].append(b)
     return [(h, body, backs) for h, (body, backs) in sorted(out.items())]
+
+
+def loop_cond_exits(fv, head, body):
+    """Successors outside the body of the loop's own condition test (first branching block on the
+    straight-line path from the header)."""
+    b, steps = head, 0
+    while steps < 12:
+        ss = fv.succ[b]
+        outs = [s for l, s in ss if s not in body]
+        if len(ss) >= 2 or outs:
+            return outs
+        if not ss:
+            return []
+        b = ss[0][1]
+        steps += 1
+    return []
